@@ -23,6 +23,10 @@ CLAIMED = {
    "TLA+ model of the git-credential wire format (spec/CredProto.tla: writer, refusal rule, helper-side reader) checked by TLC; every enumerated credential map pushed through the real creds package with a recording git shim; raw helper stdin compared",
    "TLC enumerates every credential map with <=1 (quick) / <=2 (thorough) fields carrying a value of length <=2 over {x,=,LF,CR,NUL,space}, both protectProtocol settings and fill/approve/reject, proves on the model that the refusal rule is sufficient (helper parses exactly the supplied pairs) and necessary, and the real code is run on each map: must-refuse maps never reach the helper and yield an error, all others arrive as exactly one k=v line per supplied pair after the capability preamble. username/path cases also go through url.Parse of a percent-encoded URL.",
    "Helper side = recording shim for `git credential`; values longer than 2 characters and more than 2 hostile fields are outside the bound.", "DESIGN.md §5 C17"),
+ "C03": ("model_checking",
+   "TLA+ model of repository + push (spec/Repo.tla, spec/Push.tla) checked exhaustively by TLC (RemoteComplete, RefsOnlyAfterObjects); per-edge behaviours ending in a push replayed with real git + git-lfs + fake LFS server; observed verdict/server/refs compared with the spec's prediction",
+   "TLC explores every history of <=3 commits / <=6 steps (quick; thorough <=5 commits, 3 objects) over 2 branches, 2 paths, raw/pointer/deleted blobs, local damage (absent, same-size corrupt), stale remote-tracking refs (another clone pushed) and the three push front-ends, and checks that whatever becomes reachable on the remote has its objects on the server. One behaviour per push edge is emitted; a stratified sample plus random walks over the larger configuration are replayed against the real binary: push verdict, server contents (hash-validated), remote refs and the RemoteComplete invariant are compared after every push.",
+   "Trusted: real git 2.39 as transport for refs (bare remote over a file path), the fake LFS server (rejects uploads that do not hash to their oid), skip-smudge work trees. --object-id, lfs.allowincompletepush, tags and file:// standalone transfer are not yet in the model.", "DESIGN.md §5 C03"),
 }
 
 checks = []
